@@ -35,7 +35,7 @@ def _ident(x):
 def gen_case(rng: random.Random, tier: str, bias: str = ''):
     big = tier == 'thorough'
     kind = rng.choice(['buffer', 'buffer', 'buffer', 'asyncbuffer', 'synciter', 'buffer', 'asyncbuffer', 'synciter',
-                       'synciter+abuffer', 'synciter+aparmap'])
+                       'synciter+abuffer', 'synciter+aparmap', 'aparmap+abuffer', 'abuffer+abuffer'])
     maxsize = 2 if kind == 'synciter' else rng.choice([1, 1, 2, 2, 3, 4] if not big else [1, 2, 3, 5, 8])
     n = rng.choice([0, 1, 2, 3, 5, 8, 12] if not big else [0, 1, 2, 5, 9, 16, 30])
     if bias == 'lookahead':
@@ -49,7 +49,7 @@ def gen_case(rng: random.Random, tier: str, bias: str = ''):
     case = dict(kind=kind, n=n, src=src, maxsize=maxsize, stop_after=stop_after,
                 stop_mode=rng.choice(['close', 'close', 'del', 'throw']), chooser=list(ch), seed=rng.randrange(1 << 30))
     case['exc_flavour'] = excflavours.of_seed(case['seed'])
-    if kind != 'asyncbuffer' and case['seed'] % 11 == 0:
+    if kind not in ('asyncbuffer', 'aparmap+abuffer', 'abuffer+abuffer') and case['seed'] % 11 == 0:
         case['stop_after'] = 0       # the iterator is never advanced
     return case
 
@@ -197,6 +197,16 @@ def run_case(case):
         elif case['kind'] == 'synciter+aparmap':
             box = [iter(SyncIter(AsyncStream(ASrc()).parmap(_ident, executor='thread', concurrency=case['maxsize'])))]
             end = consume_sync(box, out)
+        elif case['kind'] in ('aparmap+abuffer', 'abuffer+abuffer'):
+            # a buffer downstream of a stage that owns helper threads of its own (its worker thread iterates that stage
+            # on its private event loop): stopping early or a failure must wind the upstream stage down as well
+            async def amain2():
+                up = AsyncStream(ASrc())
+                up = up.parmap(_ident, executor='thread', concurrency=case['maxsize']) if case['kind'] == 'aparmap+abuffer' \
+                    else up.buffer(case['maxsize'])
+                agen = up.buffer(case['maxsize']).__aiter__()
+                return await consume_async(agen, out)
+            end = asyncio.run(amain2())
         else:
             async def amain():
                 agen = AsyncBuffer(ASrc(), case['maxsize']).__aiter__()
